@@ -149,13 +149,22 @@ impl SubSocket {
         let message: ZmqMessage = SubSocketBackend::create_subs_message(subscription, msg_type);
         let mut iter = self.backend.peers.begin_async().await;
 
+        // A peer whose connection fails must not keep the remaining peers from being
+        // told: carry on and report the first error at the end.
+        let mut result = Ok(());
         while let Some(mut peer) = iter {
-            peer.send_queue
+            let sent = peer
+                .send_queue
                 .send(Message::Message(message.clone()))
-                .await?;
+                .await;
+            if let Err(e) = sent {
+                if result.is_ok() {
+                    result = Err(e.into());
+                }
+            }
             iter = peer.next_async().await;
         }
-        Ok(())
+        result
     }
 }
 
